@@ -220,6 +220,7 @@ class Future : detail::FutureBase<Result> {
    **/
   const Result& get() const {
     wait();
+    DISPENSO_VERIF_POINT("fut.get.result", this->impl_);
     return this->impl_->result();
   }
 
@@ -320,6 +321,7 @@ class Future<Result&> : detail::FutureBase<Result&> {
    **/
   Result& get() const {
     wait();
+    DISPENSO_VERIF_POINT("fut.get.result", this->impl_);
     return this->impl_->result();
   }
 
@@ -404,6 +406,7 @@ class Future<void> : detail::FutureBase<void> {
    **/
   void get() const {
     wait();
+    DISPENSO_VERIF_POINT("fut.get.result", this->impl_);
     this->impl_->result();
   }
 
